@@ -2,8 +2,15 @@
 import math
 
 
+import os
+
+_EXACT = os.environ.get("VERIF_FLOAT_EXACT") == "1"
+
+
 def same(a, b, rel=1e-9, abs_=1e-12):
     """numeric equality up to the stated float tolerance; ints exact; 1 == 1.0"""
+    if _EXACT:
+        rel, abs_ = 0.0, 0.0
     if isinstance(a, bool) or isinstance(b, bool):
         a = int(a) if isinstance(a, bool) else a
         b = int(b) if isinstance(b, bool) else b
